@@ -817,4 +817,145 @@ theorem countCall_replicate (i : Nat) (h : Hook) (n : Nat) (l : Log) :
 theorem countCall_defaultLogOf (i : Nat) (h : Hook) (ps : List Plugin) : countCall i h (defaultLogOf ps) = 0 := by
   unfold defaultLogOf; split <;> simp [countCall]
 
+
+/-! ### the credential comparison -/
+
+/-- **Specification** of "the header value carries exactly the configured credentials `c`":
+    split at blanks it has exactly two parts, the first is `basic` in any letter
+    case, the second is `c` byte for byte. -/
+def credOk (c v : Bytes) : Prop :=
+  (splitWs v).length = 2 ∧ ((splitWs v)[0]?).map lower = some Auth.BASIC ∧ (splitWs v)[1]? = some c
+
+/-- the same for the (optional) value found under `proxy-authorization` -/
+def CredOk (c : Bytes) (o : Option Bytes) : Prop := ∃ v, o = some v ∧ credOk c v
+
+theorem valueOk_iff (c v : Bytes) : Auth.valueOk c v = true ↔ credOk c v := by
+  unfold Auth.valueOk credOk
+  generalize splitWs v = parts
+  rcases parts with _ | ⟨s, _ | ⟨t, _ | ⟨u, rest⟩⟩⟩
+  · simp
+  · simp
+  · by_cases h1 : lower s = Auth.BASIC <;> by_cases h2 : t = c <;> simp [h1, h2]
+  · simp
+
+theorem check_iff (c : Bytes) (hc : c ≠ []) (o : Option Bytes) : Auth.check (some c) o = true ↔ CredOk c o := by
+  have hne : c.isEmpty = false := by cases c <;> simp_all
+  unfold Auth.check CredOk
+  cases o with
+  | none => simp [hne]
+  | some v => simp [hne, valueOk_iff]
+
+/-! blanks around the two tokens do not matter (`bytes.split()`): every value of the
+    shape  blanks* scheme blanks+ code blanks*  splits into exactly the two tokens -/
+
+def allWs (x : Bytes) : Prop := ∀ c ∈ x, isWs c = true
+def noWs (x : Bytes) : Prop := ∀ c ∈ x, isWs c = false
+
+theorem splitWsAux_ws (w rest : Bytes) (hw : allWs w) : splitWsAux (w ++ rest) [] = splitWsAux rest [] := by
+  induction w with
+  | nil => rfl
+  | cons c cs ih =>
+    have h1 : isWs c = true := hw c List.mem_cons_self
+    simp only [List.cons_append, splitWsAux, h1, if_true, List.isEmpty_nil]
+    exact ih (fun d hd => hw d (List.mem_cons_of_mem _ hd))
+
+theorem splitWsAux_tok (s rest cur : Bytes) (hs : noWs s) :
+    splitWsAux (s ++ rest) cur = splitWsAux rest (s.reverse ++ cur) := by
+  induction s generalizing cur with
+  | nil => rfl
+  | cons c cs ih =>
+    have h1 : isWs c = false := hs c List.mem_cons_self
+    simp only [List.cons_append, splitWsAux, h1]
+    rw [ih _ (fun d hd => hs d (List.mem_cons_of_mem _ hd))]
+    simp
+
+theorem splitWs_two (w0 s w1 t w2 : Bytes) (h0 : allWs w0) (hs : noWs s) (hsne : s ≠ []) (h1 : allWs w1)
+    (h1ne : w1 ≠ []) (ht : noWs t) (htne : t ≠ []) (h2 : allWs w2) :
+    splitWs (w0 ++ s ++ w1 ++ t ++ w2) = [s, t] := by
+  unfold splitWs
+  have e : w0 ++ s ++ w1 ++ t ++ w2 = w0 ++ (s ++ (w1 ++ (t ++ w2))) := by simp
+  rw [e, splitWsAux_ws _ _ h0, splitWsAux_tok _ _ _ hs]
+  obtain ⟨c, cs, rfl⟩ := List.exists_cons_of_ne_nil h1ne
+  have hc : isWs c = true := h1 c List.mem_cons_self
+  have hsr : (s.reverse ++ []).isEmpty = false := by
+    cases s with
+    | nil => exact absurd rfl hsne
+    | cons a as => simp
+  simp only [List.cons_append, splitWsAux, hc, if_true, hsr]
+  rw [splitWsAux_ws _ _ (fun d hd => h1 d (List.mem_cons_of_mem _ hd)), splitWsAux_tok _ _ _ ht]
+  have htr : (t.reverse ++ []).isEmpty = false := by
+    cases t with
+    | nil => exact absurd rfl htne
+    | cons a as => simp
+  cases w2 with
+  | nil => simp [splitWsAux, htr]
+  | cons d ds =>
+    have hd : isWs d = true := h2 d List.mem_cons_self
+    have hrest := splitWsAux_ws ds [] (fun x hx => h2 x (List.mem_cons_of_mem _ hx))
+    simp only [List.append_nil] at hrest
+    simp [splitWsAux, hd, htr, hrest]
+
+/-! ### header lines → header map -/
+
+/-- the map key a header line is filed under -/
+def lineKey (l : Bytes) : Bytes :=
+  match splitOnce1 COLON l with
+  | none => lower (strip l)
+  | some (k, _) => lower (strip k)
+
+/-- the value a header line contributes -/
+def lineVal (l : Bytes) : Bytes :=
+  match splitOnce1 COLON l with
+  | none => []
+  | some (_, v) => strip v
+
+theorem processHeader_same (h : HMap) (l : Bytes) : hVal? (processHeader h l) (lineKey l) = some (lineVal l) := by
+  unfold processHeader lineKey lineVal hVal? hAdd
+  split <;> simp [dGet_dSet_same]
+
+theorem processHeader_other (h : HMap) (l k : Bytes) (hk : lineKey l ≠ k) :
+    hVal? (processHeader h l) k = hVal? h k := by
+  unfold processHeader lineKey hVal? hAdd at *
+  split <;> rename_i heq <;> simp only [heq] at hk <;> rw [dGet_dSet_other _ _ _ _ hk]
+
+theorem foldl_processHeader_other (post : List Bytes) (h : HMap) (k : Bytes) (hp : ∀ m ∈ post, lineKey m ≠ k) :
+    hVal? (post.foldl processHeader h) k = hVal? h k := by
+  induction post generalizing h with
+  | nil => rfl
+  | cons m ms ih =>
+    simp only [List.foldl_cons]
+    rw [ih _ (fun x hx => hp x (List.mem_cons_of_mem _ hx)), processHeader_other _ _ _ (hp m List.mem_cons_self)]
+
+/-! ### plugin load order -/
+
+theorem loadBucket_append (bk : Bytes) (l1 l2 : List (Bytes × Bytes)) (acc : List Bytes) :
+    loadBucket bk (l1 ++ l2) acc = loadBucket bk l2 (loadBucket bk l1 acc) := by
+  induction l1 generalizing acc with
+  | nil => rfl
+  | cons e rest ih =>
+    obtain ⟨n, b⟩ := e
+    simp only [List.cons_append, loadBucket]
+    split <;> exact ih _
+
+/-- loading only appends, and never a name that is already there -/
+theorem loadBucket_ext (bk : Bytes) (l : List (Bytes × Bytes)) (acc : List Bytes) :
+    ∃ t, loadBucket bk l acc = acc ++ t ∧ ∀ x ∈ t, x ∉ acc := by
+  induction l generalizing acc with
+  | nil => exact ⟨[], by simp [loadBucket], by simp⟩
+  | cons e rest ih =>
+    obtain ⟨n, b⟩ := e
+    simp only [loadBucket]
+    split
+    · rename_i hc
+      obtain ⟨t, ht, hd⟩ := ih (acc ++ [n])
+      refine ⟨n :: t, by rw [ht]; simp, ?_⟩
+      intro x hx
+      simp only [List.mem_cons] at hx
+      rcases hx with rfl | hx
+      · simp only [Bool.and_eq_true, Bool.not_eq_true', List.contains_eq_mem, decide_eq_false_iff_not] at hc
+        exact hc.2
+      · intro hm
+        exact hd x hx (List.mem_append_left _ hm)
+    · exact ih acc
+
 end Px.Chain
